@@ -526,7 +526,7 @@ int main(int argc, char **argv)
 	if (mode == "merge")
 		return mode_merge(argc - 2, argv + 2);
 	long seed = 1, cases = 1000, maxsize = 100, len = 100, depth = 1000, worker = 0, workers = 1, split = 3,
-	     maxruns = 0, watchdog = 20;
+	     maxruns = 0, watchdog = 6;
 	const char *file = nullptr;
 	bool quiet = false;
 	for (int i = 2; i < argc; i++) {
